@@ -130,7 +130,7 @@ def sample_cases(cases, limit, rnd):
 # ================================================================================================ C17
 
 T_ALL = dict(MaxCalls=2, MaxTools=2, Modes=["invoke", "stream"], Graphs=[True, False], Handlers=["none", "ok", "fail"],
-             Kinds=["inv", "str", "both"], Behs=["ok", "fail", "panic", "failmid"], MaxChunks=2, AllowUnknown=True, MaxFaulty=3,
+             Kinds=["inv", "str", "both"], Behs=["ok", "empty", "fail", "panic", "failmid"], MaxChunks=2, AllowUnknown=True, MaxFaulty=3,
              Eager=False, Bug="none")
 
 
@@ -230,21 +230,21 @@ def c17(tier, repo=None, only_cases=None):
         mc("n2-all", t_consts())
         mc("n2-liveness", t_consts(MaxCalls=2, MaxChunks=1, Graphs=[True]), props=["Terminates"], spec=True)
         mc("n3-faults", t_consts(MaxCalls=3, MaxTools=3, MaxChunks=1, Behs=["ok", "fail", "panic"], Kinds=["inv", "str"], Handlers=["none", "ok"], MaxFaulty=2))
-        for bug in ("reverse", "sharedidx", "noinlinewait"):
+        for bug in ("reverse", "sharedidx", "noinlinewait", "dropempty"):
             mc("n2-bug-" + bug, t_consts(Bug=bug), expect_violation="RuleOK")
         if tier == "thorough":
-            mc("n3-chunks", t_consts(MaxCalls=3, MaxTools=2, Behs=["ok", "failmid"], MaxFaulty=1, AllowUnknown=False, Graphs=[False]), timeout=1500)
+            mc("n3-chunks", t_consts(MaxCalls=3, MaxTools=2, Behs=["ok", "empty", "failmid"], MaxFaulty=1, AllowUnknown=False, Graphs=[False]), timeout=1500)
             mc("n3-all-kinds", t_consts(MaxCalls=3, MaxTools=3, MaxChunks=1, Behs=["ok", "fail", "panic"], MaxFaulty=3), timeout=1500)
             mc("n4-sim", t_consts(MaxCalls=4, MaxTools=3), simulate="num=40000", depth=60, timeout=1200)
         # ---- 2. scenarios + schedules
         if tier == "quick":
             fams = [("n2-all", t_consts(Eager=True), None, {}),
                     ("n3-faults", t_consts(Eager=True, MaxCalls=3, MaxTools=3, MaxChunks=1, Behs=["ok", "fail", "panic"], Kinds=["inv", "str"]), 2600, {}),
-                    ("n3-chunks", t_consts(Eager=True, MaxCalls=3, MaxTools=2, Behs=["ok", "failmid"], Kinds=["inv", "str"], MaxFaulty=1, AllowUnknown=False, Graphs=[False]), 1400, {})]
+                    ("n3-chunks", t_consts(Eager=True, MaxCalls=3, MaxTools=2, Behs=["ok", "empty", "failmid"], Kinds=["inv", "str"], MaxFaulty=1, AllowUnknown=False, Graphs=[False]), 1400, {})]
         else:
             fams = [("n2-all", t_consts(Eager=True), None, {}),
                     ("n3-faults", t_consts(Eager=True, MaxCalls=3, MaxTools=3, MaxChunks=1, Behs=["ok", "fail", "panic"]), None, {}),
-                    ("n3-chunks", t_consts(Eager=True, MaxCalls=3, MaxTools=2, Behs=["ok", "failmid"], MaxFaulty=1, AllowUnknown=False), 30000, {"timeout": 1500}),
+                    ("n3-chunks", t_consts(Eager=True, MaxCalls=3, MaxTools=2, Behs=["ok", "empty", "failmid"], MaxFaulty=1, AllowUnknown=False), 30000, {"timeout": 1500}),
                     ("n4-sim", t_consts(Eager=True, MaxCalls=4, MaxTools=3), 20000, {"simulate": "num=30000", "depth": 60, "timeout": 1200})]
     cases, gen_stats, exhaustive = [], [], True
     for name, consts, limit, kw in fams:
@@ -377,7 +377,7 @@ def c17(tier, repo=None, only_cases=None):
 
 R_STYLES_JUDGED = ["d-whole", "d-tcfirst", "d-emptyfirst", "d-splitargs", "d-percall", "w-whole", "w-tcfirst", "w-percall", "w-contentfirst"]
 R_ALL = dict(MaxMsgs=2, MaxCalls=2, MaxTools=2, MaxSteps=[0, 2, 3, 4, 5, 6], RdMode="all", Modifiers=[True, False],
-             Styles=R_STYLES_JUDGED, Contents=[True, False], Eager=False, Bug="none")
+             Styles=R_STYLES_JUDGED, Contents=[True, False], Wide=[], Eager=False, Bug="none")
 STYLE = {"d": "default", "w": "whole"}
 
 
@@ -409,6 +409,23 @@ def c18_decorate(cases, rnd):
         c["nested"] = rnd.random() < 0.25
         if rnd.random() < 0.3:                       # two original messages instead of one
             c["msgs"] = [{"role": "system", "content": "s0", "calls": [], "tcid": ""}] + c["msgs"]
+        # the two runs of a case use ONE agent; in a part of the cases they overlap in time (the second run starts while the first
+        # is inside its first model step)
+        x = rnd.random()
+        c["overlap"] = "generate-first" if x < 0.2 else ("stream-first" if x < 0.4 else "")
+        # wide assistant messages (>= 5 tool calls): streaming tools whose result streams close in a prescribed order; half of the
+        # orders start with the 5th stream, the rest are random permutations
+        c["order"] = {}
+        for j, m in enumerate(c["script"]):
+            w = len(m["calls"])
+            if w >= 5:
+                perm = list(range(1, w + 1))
+                rnd.shuffle(perm)
+                if rnd.random() < 0.5:
+                    perm.remove(5)
+                    perm = [5] + perm
+                c["order"][str(j + 1)] = perm
+                c["tkinds"] = {t: "str" for t in c["tools"]}
     return cases
 
 
@@ -451,6 +468,7 @@ def c18(tier, repo=None, only_cases=None):
         small = dict(Styles=["d-whole"], Contents=[False])
         mc("m2-styles", r_consts(MaxSteps=[0, 2, 3, 5]))
         mc("m3-core", r_consts(MaxMsgs=3, Modifiers=[False], **small))
+        mc("m2-wide", r_consts(MaxCalls=1, MaxSteps=[0, 4], Modifiers=[False], Wide=[5, 6], **small))
         mc("m2-liveness", r_consts(MaxSteps=[0, 3], RdMode="none", Modifiers=[False], **small), props=["Terminates"], spec=True)
         for bug in ("noappend", "norecord", "nomax", "rdlast", "modleak"):
             mc("m2-bug-" + bug, r_consts(Bug=bug, **small), expect_violation="RuleOK")
@@ -462,10 +480,12 @@ def c18(tier, repo=None, only_cases=None):
             mc("m4-core", r_consts(MaxMsgs=4, MaxTools=3, MaxSteps=[0, 4, 6], Modifiers=[False], **small), timeout=1700)
         gen = dict(Eager=True, Modifiers=[False], **small)
         if tier == "quick":
-            fams = [("s3", r_consts(MaxMsgs=3, **gen), 2200, {})]
+            fams = [("s3", r_consts(MaxMsgs=3, **gen), 2000, {}),
+                    ("wide", r_consts(MaxMsgs=2, MaxCalls=1, MaxSteps=[0, 4], Wide=[5, 6, 7], **gen), 200, {})]
         else:
             fams = [("s3", r_consts(MaxMsgs=3, MaxTools=3, **gen), 15000, {"timeout": 1500}),
-                    ("s4", r_consts(MaxMsgs=4, MaxTools=3, MaxSteps=[0, 2, 4, 5, 6], **gen), 15000, {"simulate": "num=20000", "depth": 120, "timeout": 1500})]
+                    ("s4", r_consts(MaxMsgs=4, MaxTools=3, MaxSteps=[0, 2, 4, 5, 6], **gen), 15000, {"simulate": "num=20000", "depth": 120, "timeout": 1500}),
+                    ("wide", r_consts(MaxMsgs=3, MaxCalls=1, MaxTools=3, MaxSteps=[0, 4, 6], Wide=[5, 6, 7], **gen), 3000, {})]
     cases, gen_stats, exhaustive = [], [], True
     for name, consts, limit, kw in fams:
         cs, run = generate(prop, name, consts, invariants=inv, **kw)
